@@ -102,6 +102,38 @@ theorem hook_sees_while_installed (cfg : Cfg) (st : St) (hal : st.alive = true) 
   · intro why
     cases hh : st.hookInv <;> cases ho : cfg.optCb <;> simp [step, hal, hh, ho, hookLog]
 
+/-- **both_callbacks_see_every_push.** On a wire that carries BOTH the client-wide OnInvalidations
+    callback and a dedicated client's SetOnInvalidations hook (pool wires inherit the option), every
+    invalidation push reaches both, with the same argument, option-level callback first; and over a
+    whole frame sequence during which the hook stays installed both logs equal the server's push log. -/
+theorem both_callbacks_see_every_push (cfg : Cfg) (hopt : cfg.optCb = true) (st : St) (hal : st.alive = true)
+    (hh : st.hookInv = true) :
+    (∀ vs, (step cfg st (.frame (.push vs))).2 = match invArg vs with | some a => [.opt a, .hook a] | none => []) ∧
+    (∀ fs : List Frame, optLog (run cfg st (fs.map .frame)) = pushLog cfg (fs.map .frame) ∧
+      hookLog (run cfg st (fs.map .frame)) = pushLog cfg (fs.map .frame)) := by
+  constructor
+  · intro vs
+    cases h : invArg vs <;> simp [step, hal, frameInvs, pushCalls, h, hopt, hh]
+  · intro fs
+    induction fs with
+    | nil => exact ⟨rfl, rfl⟩
+    | cons f r ih =>
+      have hst : (step cfg st (.frame f)).1 = st := by simp [step, hal]
+      have hcalls : ∀ l : List (List PV), optLog (l.flatMap (pushCalls cfg st)) = l.filterMap invArg ∧
+          hookLog (l.flatMap (pushCalls cfg st)) = l.filterMap invArg := by
+        intro l
+        induction l with
+        | nil => exact ⟨rfl, rfl⟩
+        | cons vs r ih2 =>
+          cases h : invArg vs <;>
+            simp [List.flatMap_cons, optLog, hookLog, pushCalls, h, hopt, hh] <;>
+            simpa [optLog, hookLog] using ih2
+      simp only [List.map_cons, run, hst, pushLog, List.flatMap_cons]
+      have h1 := hcalls (frameInvs cfg f)
+      simp only [optLog, hookLog, List.filterMap_append] at *
+      simp only [step, hal, if_true]
+      exact ⟨by rw [h1.1, ih.1]; rfl, by rw [h1.2, ih.2]; rfl⟩
+
 /-- **teardown_notifies_for_every_exit_reason.** Whatever ended the pipe — the server killed the
     connection, the client closed it, a write failed, or ConnLifetime retired it — the clean-up makes
     the same calls: one `nil` to the OnInvalidations callback (if configured) and one `nil` to the
